@@ -606,8 +606,11 @@ def main(argv):
         "wall_s": round(time.time() - t0, 1),
         "violations": n_new_viol + (1 if (problems and not n_new_viol) else 0),
     }
-    os.makedirs(os.path.join(VERIF, "evidence"), exist_ok=True)
-    json.dump(ev, open(os.path.join(VERIF, "evidence", pid + ".json"), "w"), indent=1)
+    # evidence describes runs against /repo itself; runs against a scratch worktree
+    # (VERIF_REPO, used for mutation experiments) must not overwrite it
+    evdir = os.path.join(VERIF, "evidence") if os.path.realpath(REPO) == "/repo" else os.path.join(BUILD, "evidence_scratch")
+    os.makedirs(evdir, exist_ok=True)
+    json.dump(ev, open(os.path.join(evdir, pid + ".json"), "w"), indent=1)
     for l in lines:
         print(l)
     print("%s tier=%s obligations=%d/%d cases=%d events=%d problems=%d wall=%.1fs -> exit %d" % (
